@@ -113,7 +113,18 @@ func ImportModuleLevelObject(ctx Context, name string, globals, locals StringDic
 		}
 	}
 
-	module, err := RunFile(ctx, srcPathname, opts, name)
+	// Resolve and run in two steps so that only a failure to find the
+	// module's source is reported as ImportError (an error raised while
+	// the module's code runs keeps its class).
+	out, err := ctx.ResolveAndCompile(srcPathname, opts)
+	if err != nil {
+		if IsException(FileNotFoundError, err) {
+			err = ExceptionNewf(ImportError, "No module named '%s'", name)
+		}
+		return nil, err
+	}
+
+	module, err := RunCode(ctx, out.Code, out.FileDesc, name)
 	if err != nil {
 		return nil, err
 	}
